@@ -723,6 +723,18 @@ class Analysis:
             return frozenset(self.kill_term(cs, t))
         if e.op == "=":
             r = self.lin(e.kid(1), st)
+            if r is not None and tl is not None and t in r.vars() and r.t[t] > 0 and self._is_int(tgt.ty) and \
+                    not (e.kid(1) is not None and self._ty(e.kid(1).ty).get("size", 0) > self._ty(tgt.ty).get("size", 8)):
+                # x = a*x + b with a > 0 (an invertible update of the variable by itself): old = (new - b) / a, substituted in every
+                # constraint like x += r above
+                a = r.t[t]
+                rest = Lin({v: c for v, c in r.t.items() if v != t}, r.k)
+                by = (Lin.var(t) - rest).scale(1 / a)
+                out = _simplify([le0(_lin_of_con(c).subst(t, by)) for c in cs])
+                if out is False:
+                    return None
+                out = self._kill(out, lambda v: isinstance(v, tuple) and v != t and any(s == t for s in subterms(v)))
+                return frozenset(out)
             cs = self.kill_term(cs, t, tgt.ty)
             if r is not None and t not in r.vars() and (self._is_int(tgt.ty) or self._ty(tgt.ty).get("kind") == "ptr"):
                 # a narrowing store does not preserve the value
